@@ -1,7 +1,7 @@
 (* C14 — the debugger command language is total, unambiguous and transport-independent. *)
 From Coq Require Import List NArith ZArith Bool String.
 From Lace Require Import CmdSpec Cmd CmdProofs.
-From Lace Require Dbg DbgBad DebugText DebugTextProofs Utf8.
+From Lace Require Dbg DbgBad DebugText DebugTextProofs Utf8 Utf8Lines.
 Import ListNotations.
 Open Scope N_scope.
 
@@ -261,6 +261,16 @@ Theorem C14_utf8_keeps_separator : forall a n pre b rest,
   Utf8.read_char_lossy (a :: pre ++ b :: rest) = Some (Utf8.replacement, b :: rest).
 Proof. exact Utf8.read_char_lossy_keeps. Qed.
 Print Assumptions C14_utf8_keeps_separator.
+
+(** The reader works character by character (decode one, test it for newline / `;`, push it); the one-stream
+    model (DbgStream.fetch) cuts the BYTES at the first newline / `;` and decodes the line.  The two orders give
+    the same line and leave the same rest, for every byte stream. *)
+Theorem C14_utf8_lines : forall bs,
+  Utf8Lines.read_line (S (List.length bs)) bs [] =
+    (match fst (stdin_read bs) with Some line => Some (Utf8.decode_lossy line) | None => None end,
+     snd (stdin_read bs)).
+Proof. exact Utf8Lines.read_line_eq. Qed.
+Print Assumptions C14_utf8_lines.
 
 Example C14_utf8_lossy_nonvacuous :
   Utf8.decode_lossy [99; 97; 102; 233; 10; 113] = [99; 97; 102; 65533; 10; 113] /\
